@@ -99,6 +99,15 @@ func vfStubHashC(h *types.Header) common.Hash {
 //verif:stub github.com/ethereum/go-ethereum/crypto.Keccak256
 func vfStubKeccakC(data ...[]byte) []byte { return []byte("identity") }
 
+// a distinguished transaction handle: every write of a sync step must go through it
+type vfRgTxT struct{ pgx.Tx }
+
+var vfRgInTx *vfRgTxT
+
+func vfRgThroughTx(q *database.Queries) {
+	vfAssert(vfRgInTx != nil && vfDeepEq(q, database.New(vfRgInTx)), "writes-go-through-the-sync-transaction")
+}
+
 //verif:stub (*github.com/jackc/pgx/v4/pgxpool.Pool).BeginFunc
 func vfStubBeginFuncC(p *pgxpool.Pool, ctx context.Context, f func(pgx.Tx) error) error {
 	snapshot := vfRT
@@ -107,7 +116,9 @@ func vfStubBeginFuncC(p *pgxpool.Pool, ctx context.Context, f func(pgx.Tx) error
 		fail = vfTxFail[vfTxNo]
 	}
 	vfTxNo++
-	err := f(nil)
+	vfRgInTx = &vfRgTxT{}
+	err := f(vfRgInTx)
+	vfRgInTx = nil
 	if err != nil || fail {
 		vfRT = snapshot // atomicity: nothing of a failed transaction is applied
 		if err == nil {
@@ -134,6 +145,7 @@ func vfStubGetSyncedUntil(q *database.Queries, ctx context.Context) (database.Id
 
 //verif:stub (*github.com/shutter-network/rolling-shutter/rolling-shutter/keyperimpl/shutterservice/database.Queries).SetIdentityRegisteredEventSyncedUntil sql=setIdentityRegisteredEventSyncedUntil
 func vfStubSetSyncedUntil(q *database.Queries, ctx context.Context, arg database.SetIdentityRegisteredEventSyncedUntilParams) error {
+	vfRgThroughTx(q)
 	vfRT.hasPos, vfRT.pos = true, arg.BlockNumber
 	vfRT.hashOnB = len(arg.BlockHash) == 32 && arg.BlockHash[0] == 0xB
 	vfRT.hashOnA = vfRT.hashOnB && arg.BlockNumber >= 0 && vfSameOnBoth(uint64(arg.BlockNumber))
@@ -142,6 +154,7 @@ func vfStubSetSyncedUntil(q *database.Queries, ctx context.Context, arg database
 
 //verif:stub (*github.com/shutter-network/rolling-shutter/rolling-shutter/keyperimpl/shutterservice/database.Queries).DeleteIdentityRegisteredEventsFromBlockNumber sql=deleteIdentityRegisteredEventsFromBlockNumber
 func vfStubDeleteFrom(q *database.Queries, ctx context.Context, from int64) error {
+	vfRgThroughTx(q)
 	if int64(vfOr.h) >= from {
 		vfRT.row, vfRT.rowFromA, vfRT.rowFromB = false, false, false
 	}
@@ -150,6 +163,7 @@ func vfStubDeleteFrom(q *database.Queries, ctx context.Context, from int64) erro
 
 //verif:stub (*github.com/shutter-network/rolling-shutter/rolling-shutter/keyperimpl/shutterservice/database.Queries).InsertIdentityRegisteredEvent sql=insertIdentityRegisteredEvent
 func vfStubInsertRegEvent(q *database.Queries, ctx context.Context, arg database.InsertIdentityRegisteredEventParams) (pgconn.CommandTag, error) {
+	vfRgThroughTx(q)
 	if arg.BlockNumber == int64(vfOr.h) {
 		vfRT.row, vfRT.rowFromB = true, true
 		vfRT.rowFromA = vfSameOnBoth(vfOr.h)
